@@ -893,6 +893,19 @@ class Lower:
             raise Abort('member call through %s in %s' % (me.get('kind'), self.cur_fn))
         obj = self.inner(me)[0]
         eo = self.E(obj)
+        if not me.get('isArrow') and (re.match(r'^\(?\w+\(.*\)\)?$', eo) and not eo.startswith('(*') or eo.lstrip('(').startswith('(struct') or eo.startswith('VS_STR_LIT(')):
+            # member call on a temporary (f().g(), T{...}.g()): materialise it so that it has an address
+            oct_ = self.ctype(obj.get('type') or {})
+            if oct_.startswith('struct') and not oct_.endswith('*'):
+                t = 'vs_t%d' % self.tmp
+                self.tmp += 1
+                if self.cur_spec.get('hoist_all') and self.loop_depth:
+                    self.hoisted.append('%s %s;' % (oct_, t))
+                    self.hoisted_names.append((t, tuple(self.loop_id_stack)))
+                    self.pre.append('%s = %s;' % (t, eo))
+                else:
+                    self.pre.append('%s %s = %s;' % (oct_, t, eo))
+                eo = t
         objp = eo if me.get('isArrow') else self.addr(eo)
         rid = me.get('referencedMemberDecl')
         tgt = self.ast.byid.get(rid)
@@ -1977,14 +1990,16 @@ def select_functions(ast, unit):
                 continue
             if w.get('sig') and w['sig'] not in (n.get('type') or {}).get('qualType', ''):
                 continue
-            key = (q, w.get('sig'))
+            if 'targs' in w and [c.get('value', (c.get('type') or {}).get('qualType')) for c in n.get('inner', []) if isinstance(c, dict) and c.get('kind') == 'TemplateArgument'] != w['targs']:
+                continue                      # explicit specialisation picked by its template arguments
+            key = (q, w.get('sig'), str(w.get('targs')))
             cur = chosen.get(key)
             if cur is None or (has_body(n) and not has_body(cur[0])):
                 chosen[key] = (n, w)
-    missing = [w['q'] + (' ' + w['sig'] if w.get('sig') else '') for w in want if (w['q'], w.get('sig')) not in chosen]
+    missing = [w['q'] + (' ' + w['sig'] if w.get('sig') else '') for w in want if (w['q'], w.get('sig'), str(w.get('targs'))) not in chosen]
     if missing:
         raise Abort('functions listed in the unit but not found in the AST (renamed or removed?): %s' % ', '.join(missing))
-    return [chosen[(w['q'], w.get('sig'))] for w in want]
+    return [chosen[(w['q'], w.get('sig'), str(w.get('targs')))] for w in want]
 
 
 def lower_unit(ast, unit):
